@@ -7,7 +7,8 @@ RULE = ("micro APIs over a grid: (response-type form) x (metadata-type form) wit
         "{same file | other file imported by the service's file | other file NOT imported, listed before or after the service's file}, "
         "google.protobuf.Empty (imported by the service's file or only by another file), nested (qualified, package-relative, and "
         "package-relative while a top-level package of the same name exists, package-relative with the enclosing message in "
-        "another file, imported or not), a type alone in a file of its own that nobody imports and no other method uses, flattened request fields named like the api_core modules (operation, operation_async), "
+        "another file, imported or not), a type in a proto sub-package of the API (its file imported / not imported by the service's file), "
+        "a type alone in a file of its own that nobody imports and no other method uses, flattened request fields named like the api_core modules (operation, operation_async), "
         "the asyncio REST transport (rest_async_io_enabled; packages v2 / v1beta1; with and without Operations http rules), "
         "service-YAML http rules for the operations service with additional bindings (operation names matching each binding in turn), "
         "selective generation with generate_omitted_as_internal (every LRO rpc internal; one internal and one public), "
@@ -41,6 +42,9 @@ GET_OP = "/google.longrunning.Operations/GetOperation"
 VALID = ["rel_same", "fq_same", "rel_imported", "fq_imported", "rel_notimported", "fq_notimported", "empty", "empty_elsewhere",
          "fq_nested", "fq_otherpkg", "rel_nested", "rel_nested_imported", "rel_nested_notimported"]
 VALID += ["rel_alone", "fq_alone"]   # the type sits alone in a file of its own that nobody imports and no other method touches
+# the type lives in a proto SUB-package of the API (<pkg>.common), in a file the service's file imports / does not import;
+# named fully qualified, or relative to the rpc's package (common.X, which the package-relative fallback resolves)
+VALID += ["fq_subpkg_imported", "fq_subpkg_notimported", "rel_subpkg_notimported"]
 GEN_ONLY = ["rel_nested_shadowed"]   # both readings of the dotted name exist: decision compared model-vs-code only
 QUIRK = ["rel_nested", "rel_nested_imported", "rel_nested_notimported"]               # former finding lro.nested_relative_type (fixed): a regression carries that signature
 MISSING = ["missing"]
@@ -58,6 +62,8 @@ def annotation(kind, pkg, S):
         "rel_imported": f"Imp{S}", "fq_imported": f"{pkg}.Imp{S}",
         "rel_notimported": f"Other{S}", "fq_notimported": f"{pkg}.Other{S}",
         "rel_alone": f"Alone{S}", "fq_alone": f"{pkg}.Alone{S}",
+        "fq_subpkg_imported": f"{pkg}.common.SubImp{S}", "fq_subpkg_notimported": f"{pkg}.common.SubOther{S}",
+        "rel_subpkg_notimported": f"common.SubOther{S}",
         "empty": "google.protobuf.Empty", "empty_elsewhere": "google.protobuf.Empty",
         "fq_nested": f"{pkg}.Outer.Inner{S}", "rel_nested": f"Outer.Inner{S}", "rel_nested_shadowed": f"Outer.Inner{S}",
         # nested, package-relative, the enclosing message in ANOTHER file than the service (imported / not imported)
@@ -119,6 +125,23 @@ def build_api(cell):
             alone.message("Alone" + S).field("note", 1, "string").field("n", 2, "int32")
             files = files + [alone] if cell["order"] == "svc-first" else [alone] + files
             to_gen.append(alone.proto.name)
+    sub_kinds = {"fq_subpkg_imported": ("shared_types", "SubImp", True), "fq_subpkg_notimported": ("loose_types", "SubOther", False),
+                 "rel_subpkg_notimported": ("loose_types", "SubOther", False)}
+    done = set()
+    for k in sorted(kinds & set(sub_kinds)):
+        fname, prefix, imported = sub_kinds[k]
+        if fname in done:
+            continue
+        done.add(fname)
+        subf = File(f"{d}/common/{fname}.proto", f"{pkg}.common")
+        subf.message(prefix + "Resp").field("text", 1, "string").field("n", 2, "int32")
+        subf.message(prefix + "Meta").field("pct", 1, "int32").field("stage", 2, "string")
+        if imported:
+            svc.dep(subf.proto.name)
+            files = [subf] + files
+        else:
+            files = files + [subf] if cell["order"] == "svc-first" else [subf] + files
+        to_gen.append(subf.proto.name)
     if "fq_otherpkg" in kinds:
         files = [shared] + files
     if "rel_nested_shadowed" in kinds:
@@ -334,7 +357,10 @@ def py_class_of(req, pypkg, fqn):
         if fqn in all_messages(fp):
             rel = fqn[len(fp.package) + 1:] if fp.package else fqn
             if fp.name in req.file_to_generate:
-                return f"{pypkg}.types.{os.path.basename(fp.name)[:-6]}.{rel}"
+                # a proto sub-package of the API becomes a python sub-package with its own types/
+                root = min((f.package for f in req.proto_file if f.name in req.file_to_generate), key=len)
+                sub = fp.package[len(root) + 1:] if fp.package != root else ""
+                return f"{pypkg}{'.' + sub if sub else ''}.types.{os.path.basename(fp.name)[:-6]}.{rel}"
             return fp.name[:-6].replace("/", ".") + "_pb2." + rel
     return None
 
@@ -1045,26 +1071,29 @@ def e2e_case(args):
 
 
 def e2e_cells(ctx, n):
+    # the corpus witnesses run first; then one cell per remaining dimension; cells that repeat a corpus witness with other
+    # details come last (the quick tier stops before them), random cells only in the thorough tier
     cells = corpus_cells() + [
-        {"pkg_index": 0, "resp": "rel_notimported", "meta": "fq_same", "annotated": True, "order": "svc-first"},
         {"pkg_index": 1, "resp": "empty", "meta": "rel_imported", "annotated": True, "order": "types-first"},
         {"pkg_index": 2, "resp": "rel_same", "meta": "rel_same", "annotated": False, "order": "types-first"},
         {"pkg_index": 0, "resp": "missing", "meta": "rel_same", "annotated": True, "order": "types-first"},
         {"pkg_index": 1, "resp": "fq_nested", "meta": "empty_elsewhere", "annotated": True, "order": "svc-first"},
         {"pkg_index": 2, "resp": "fq_notimported", "meta": "rel_notimported", "annotated": True, "order": "svc-first", "raw_sibling": True},
-        {"pkg_index": 0, "resp": "rel_same", "meta": "missing", "annotated": True, "order": "svc-first"},
-        {"pkg_index": 0, "resp": "rel_nested", "meta": "rel_same", "annotated": True, "order": "types-first"},
         {"pkg_index": 1, "resp": "fq_otherpkg", "meta": "fq_imported", "annotated": True, "order": "types-first", "ops_http": True},
         {"pkg_index": 2, "resp": "unknown_rel", "meta": "rel_same", "annotated": True, "order": "types-first"},
         {"pkg_index": 0, "resp": "rel_notimported", "meta": "fq_notimported", "annotated": True, "order": "svc-first", "types_name": "operation"},
-        {"pkg_index": 1, "resp": "missing", "meta": "missing", "annotated": True, "order": "svc-first"},
         {"pkg_index": 2, "resp": "rel_notimported", "meta": "rel_same", "annotated": True, "order": "svc-first", "flat": "operation"},
-        {"pkg_index": 1, "resp": "rel_alone", "meta": "rel_same", "annotated": True, "order": "types-first"},
         {"pkg_index": 2, "resp": "fq_same", "meta": "rel_imported", "annotated": True, "order": "svc-first", "internal": "some", "raw_sibling": True},
-        {"pkg_index": 1, "resp": "rel_imported", "meta": "rel_same", "annotated": True, "order": "svc-first", "ops_http": "multi"},
-        {"pkg_index": 2, "resp": "rel_same", "meta": "rel_notimported", "annotated": True, "order": "svc-first", "rest_async": True},
+        {"pkg_index": 1, "resp": "fq_subpkg_imported", "meta": "rel_subpkg_notimported", "annotated": True, "order": "types-first"},
         {"pkg_index": 1, "resp": "fq_imported", "meta": "rel_same", "annotated": True, "order": "types-first", "rest_async": True, "ops_http": "multi"},
         {"pkg_index": 0, "resp": "empty", "meta": "rel_nested_imported", "annotated": True, "order": "types-first", "flat": "operation_async"},
+        {"pkg_index": 0, "resp": "rel_notimported", "meta": "fq_same", "annotated": True, "order": "svc-first"},
+        {"pkg_index": 0, "resp": "rel_same", "meta": "missing", "annotated": True, "order": "svc-first"},
+        {"pkg_index": 0, "resp": "rel_nested", "meta": "rel_same", "annotated": True, "order": "types-first"},
+        {"pkg_index": 1, "resp": "missing", "meta": "missing", "annotated": True, "order": "svc-first"},
+        {"pkg_index": 1, "resp": "rel_alone", "meta": "rel_same", "annotated": True, "order": "types-first"},
+        {"pkg_index": 1, "resp": "rel_imported", "meta": "rel_same", "annotated": True, "order": "svc-first", "ops_http": "multi"},
+        {"pkg_index": 2, "resp": "rel_same", "meta": "rel_notimported", "annotated": True, "order": "svc-first", "rest_async": True},
     ]
     i = 0
     while len(cells) < n:
@@ -1134,7 +1163,7 @@ def run(ctx):
     t = threading.Thread(target=schema)
     t.start()
     try:
-        run_e2e(ctx, e2e_cells(ctx, ctx.n(31, 110)), tier_all=not ctx.quick())
+        run_e2e(ctx, e2e_cells(ctx, ctx.n(24, 110)), tier_all=not ctx.quick())
     finally:
         t.join()
     if errs:
